@@ -39,3 +39,36 @@ package indexer
 //@   modifies nothing
 //@   ensures[C14.parse_key] (err == nil) == (len(key) == 17) && (err == nil ==> n == asI64(be64val(bsub(bytes(key), 1, 9)))) && (err != nil ==> n == 0)
 //@   panics never
+
+// ---------------------------------------------------------------------------------------------
+// saveTxResult: exactly two batch entries, mutually inverse (hash key -> record, (height, eth index) key -> hash).
+// ---------------------------------------------------------------------------------------------
+//@ import codec "github.com/cosmos/cosmos-sdk/codec"
+//@ import proto "github.com/cosmos/gogoproto/proto"
+//@ import sdkdb "github.com/cosmos/cosmos-db"
+//@ import evertypes "github.com/EscanBE/evermint/v12/types"
+
+// protobuf encoding of a TxResult record (types/indexer.pb.go): uninterpreted, injective (decoder = inverse)
+//@ ghost func txResultEnc(height int, txIndex int, ethTxIndex int, failed bool) bytes
+//@ ghost func txResultDecHeight(b bytes) int
+//@ ghost func txResultDecTxIndex(b bytes) int
+//@ ghost func txResultDecEthTxIndex(b bytes) int
+//@ ghost func txResultDecFailed(b bytes) bool
+//@ axiom tx_result_codec: forall h int, t int, e int, f bool :: txResultDecHeight(txResultEnc(h, t, e, f)) == h && txResultDecTxIndex(txResultEnc(h, t, e, f)) == t && txResultDecEthTxIndex(txResultEnc(h, t, e, f)) == e && txResultDecFailed(txResultEnc(h, t, e, f)) == f
+
+// codec.ProtoCodec (cosmos-sdk v0.50.10 codec/proto_codec.go) on the TxResult record — trusted summary of gogoproto:
+// MustMarshal returns a non-nil slice ([]byte{} when every field is zero) and cannot fail for four scalar fields.
+//@ func (c codec.BinaryCodec) MustMarshal(o proto.Message) (bz []byte)
+//@   assumed
+//@   modifies nothing
+//@   ensures base(bz) != 0 && fresh(base(bz))
+//@   ensures typeof(o) == type(*evertypes.TxResult) ==> bytes(bz) == txResultEnc(unbox(o, type(*evertypes.TxResult)).Height, unbox(o, type(*evertypes.TxResult)).TxIndex, unbox(o, type(*evertypes.TxResult)).EthTxIndex, unbox(o, type(*evertypes.TxResult)).Failed)
+//@   panics only_if typeof(o) != type(*evertypes.TxResult)
+
+//@ func saveTxResult(codec codec.Codec, batch sdkdb.Batch, txHash common.Hash, txResult *evertypes.TxResult) (err error)
+//@   requires codec != nil && batch != nil && txResult != nil
+//@   modifies batchLen[payload(batch)], batchKey[payload(batch)], batchVal[payload(batch)]
+//@   ensures[C14.save_two_entries] err == nil ==> (batchLen[payload(batch)] == old(batchLen[payload(batch)]) + 2 && batchKey[payload(batch)] == old(batchKey[payload(batch)])[old(batchLen[payload(batch)]) := txHashKeyOf(txHash)][old(batchLen[payload(batch)]) + 1 := txIndexKeyOf(txResult.Height, txResult.EthTxIndex)] && batchVal[payload(batch)] == old(batchVal[payload(batch)])[old(batchLen[payload(batch)]) := txResultEnc(txResult.Height, txResult.TxIndex, txResult.EthTxIndex, txResult.Failed)][old(batchLen[payload(batch)]) + 1 := hashBytes(txHash)])
+//@   ensures[C14.save_fails_only_closed] (err == nil) == batchOpen[payload(batch)]
+//@   ensures[C14.save_error_keeps_prefix] err != nil ==> (batchLen[payload(batch)] == old(batchLen[payload(batch)]) && batchKey[payload(batch)] == old(batchKey[payload(batch)]) && batchVal[payload(batch)] == old(batchVal[payload(batch)]))
+//@   panics never
